@@ -22,7 +22,7 @@ func init() {
 	register("C09", &propDef{
 		Title: "A bundle survives being re-opened and archived",
 		Rules: []func(*Checker){ruleC09Fields, ruleC09Archive, ruleChecksum("C09.checksum"), ruleC06ManifestAs("C09.addrs"),
-			ruleRootSymmetric("C09.symmetric"),
+			ruleRootSymmetric("C09.symmetric"), ruleLinkPrecise("C09.linkprecise"),
 			aliasRuleFiltered(ruleC06CanonURL, "C06.canonurl", "C09.canonkey", 1, func(o Oblig) bool { return strings.Contains(o.Key, "canonical") }),
 			aliasRuleFiltered(ruleC13Maps, "C13.maps", "C09.lookup", 3, func(o Oblig) bool { return strings.Contains(o.Key, "sourcebundle.Bundle)") || strings.Contains(o.Key, "sourcebundle.OpenDir/") })},
 		NotDecided: []string{
@@ -346,6 +346,45 @@ func ruleC08Callbacks(c *Checker) {
 	}
 	c.check(dynCallOn(errE, "localResolveErrCb", errValueOf(res)), R, p.FuncName(als), "resolution error reported", p.Pos(res.Pos()), "the error edge calls the error callback with the error", "a relative dependency that cannot be resolved is dropped silently")
 	c.check(dynCallOn(okE, "remoteCb", extractOf(res, 0)), R, p.FuncName(als), "resolved source enqueued", p.Pos(res.Pos()), "the ok edge enqueues the resolved source", "a resolvable relative dependency is not enqueued")
+	// every exit of every Add* method has handed what it was given to a callback: the unit of work is the
+	// pair (address, finder), so there is no address-only reason to drop a report
+	for _, mn := range []string{"AddRemoteSource", "AddRegistrySource", "AddLocalSource"} {
+		m := p.Fn(bundlePkg, "Dependencies."+mn)
+		if m == nil {
+			c.anchorMissing(R, "(*Dependencies)."+mn)
+			continue
+		}
+		isCb := func(fields ...string) func(ssa.Instruction) bool {
+			return func(in ssa.Instruction) bool {
+				ci, ok := in.(ssa.CallInstruction)
+				if !ok || ci.Common().StaticCallee() != nil || ci.Common().IsInvoke() {
+					return false
+				}
+				ld, ok := ci.Common().Value.(*ssa.UnOp)
+				if !ok {
+					return false
+				}
+				fa, ok := ld.X.(*ssa.FieldAddr)
+				if !ok || !isNamedT(derefType(fa.X.Type()), "Dependencies") {
+					return false
+				}
+				for _, f := range fields {
+					if fieldOf(fa).Name() == f {
+						return true
+					}
+				}
+				return false
+			}
+		}
+		for i, r := range returnsOf(m) {
+			pass := isCb("remoteCb", "registryCb", "localResolveErrCb")
+			if m == als && guarded(r.Block(), okE) {
+				pass = isCb("remoteCb", "registryCb")
+			}
+			ok, _ := mustPassBackward(r, pass)
+			c.check(ok, R, p.FuncName(m), fmt.Sprintf("exit %d hands the report to a callback", i), p.Pos(r.Pos()), "every path to this return calls one of the Dependencies callbacks", "a dependency reported by a finder can be dropped without being queued or reported: this exit is reachable without any callback having been called (the pair address+finder is the unit of work — another finder may still have to run on an address that is already known)")
+		}
+	}
 }
 
 func ruleC08Manifest(c *Checker) {
@@ -1610,31 +1649,7 @@ func ruleC10Links(c *Checker) {
 			}
 			return p.backSlice(cl, 0)[target]
 		}
-		_, eqF := condEdges(fn, func(v ssa.Value) bool {
-			bo, ok := v.(*ssa.BinOp)
-			if !ok || bo.Op != token.EQL {
-				return false
-			}
-			sv, ok := constString(bo.Y)
-			return ok && sv == ".." && isJoined(bo.X)
-		})
-		neT, _ := condEdges(fn, func(v ssa.Value) bool {
-			bo, ok := v.(*ssa.BinOp)
-			if !ok || bo.Op != token.NEQ {
-				return false
-			}
-			sv, ok := constString(bo.Y)
-			return ok && sv == ".." && isJoined(bo.X)
-		})
-		nddE = append(eqF, neT...)
-		_, npE = condEdges(fn, func(v ssa.Value) bool {
-			cl, ok := v.(*ssa.Call)
-			if !ok || !isFunc(calleeObj(cl), "strings", "HasPrefix") || !isJoined(cl.Call.Args[0]) {
-				return false
-			}
-			sv, ok := constString(cl.Call.Args[1])
-			return ok && (sv == "../" || sv == `..\`)
-		})
+		nddE, npE = dotDotEdges(fn, isJoined)
 		n := 0
 		for i, r := range returnsOf(fn) {
 			if !mayReturnNilErr(r) {
